@@ -39,7 +39,7 @@ NSHARDS = 16
 
 
 def plan(tier, seed):
-    base = [{'mode': 'ifaces', 'slice': i} for i in range(NSHARDS)] + [{'mode': 'versions'}, {'mode': 'gdb_arrays', 'gdb_shim': True}]
+    base = [{'mode': 'ifaces', 'slice': i} for i in range(NSHARDS)] + [{'mode': 'versions'}, {'mode': 'gdb_arrays', 'gdb_shim': True}, {'mode': 'system_dirs'}]
     # generated protocol descriptions (the property quantifies over whatever descriptions the tool loads, not only the shipped ones)
     if tier == 'quick':
         return base + [{'mode': 'synthetic', 'n': 6} for _ in range(6)]
@@ -660,7 +660,74 @@ def run_synthetic(ctx, spec):
             break
 
 
+def run_system_dirs(ctx, spec):
+    """load_all() on a machine whose /usr/share/wayland holds OLDER copies of files the tool also ships (same file names):
+    each interface is still described by its highest version.  The system directory is simulated by wrapping
+    protocol.discover_xml (the only place where the path is used); everything else is the real load_all()."""
+    import shutil
+    import xml.sax.saxutils as su
+    env.setup()
+    from core.wl import protocol
+    from core.output import Output, stream
+    rng = ctx.rng
+    shipped_dir = protocol.protocols_path()
+    files = [f for f in wlxml.discover(shipped_dir)]
+    rng.shuffle(files)
+    d = tempfile.mkdtemp(prefix='verif-c07-sys-')
+    orig = protocol.discover_xml
+    try:
+        made = []
+        for f in files[:6]:
+            descs = wlxml.read_file(f)
+            out = ['<?xml version="1.0" encoding="UTF-8"?>', '<protocol name="old_copy">']
+            for iname, dsc in descs.items():
+                out.append('  <interface name="%s" version="1">' % iname)
+                for mname, md in dsc['messages'].items():
+                    tag = 'event' if md['is_event'] else 'request'
+                    out.append('    <%s name="%s">' % (tag, mname))
+                    for a in md['args'][:max(0, len(md['args']) - 0)]:
+                        attrs = ' interface=%s' % su.quoteattr(a['interface']) if a['interface'] else ''
+                        out.append('      <arg name="old_%s" type="%s"%s/>' % (a['name'], a['type'], attrs))
+                    out.append('    </%s>' % tag)
+                out.append('  </interface>')
+            out.append('</protocol>')
+            p2 = os.path.join(d, os.path.basename(f))
+            with open(p2, 'w') as fh:
+                fh.write('\n'.join(out) + '\n')
+            made.append(p2)
+
+        def fake(p, out, orig=orig, d=d):
+            return orig(d, out) if p == '/usr/share/wayland' else orig(p, out)
+        protocol.discover_xml = fake
+        protocol.dump_all()
+        protocol.load_all(Output(False, False, stream.Null(), stream.Null()))
+        cands = wlxml.load_candidates(made + wlxml.shipped_files(env.REPO))
+        n = 0
+        for p2 in made:
+            for iname in wlxml.read_file(p2):
+                for c in cands.get(iname, [])[:1]:
+                    for mname, md in c['messages'].items():
+                        if (iname, mname) == ('wl_registry', 'bind') or not md['args']:
+                            continue
+                        ctx.ev()
+                        n += 1
+                        ctx.sig(['system-dir', iname, mname])
+                        got = protocol.get_arg_name(iname, mname, 0)
+                        want = [x['messages'][mname]['args'][0]['name'] for x in cands[iname] if mname in x['messages'] and x['messages'][mname]['args']]
+                        if got not in want:
+                            ctx.violation('version-precedence', 'an older %s (version 1 of everything) in /usr/share/wayland next to the shipped file: %s.%s '
+                                          'argument 0 is named %r, the highest version (%d) says %r' % (os.path.basename(p2), iname, mname, got, c['version'], want[:2]),
+                                          {'versions': 'system-dir'})
+                            return
+        ctx.count('system_dir_lookups', n)
+    finally:
+        protocol.discover_xml = orig
+        shutil.rmtree(d, ignore_errors=True)
+
+
 def run(ctx, spec):
+    if spec.get('mode') == 'system_dirs':
+        return run_system_dirs(ctx, spec)
     if spec.get('mode') == 'synthetic':
         return run_synthetic(ctx, spec)
     if spec.get('mode') == 'gdb_arrays':
@@ -674,6 +741,8 @@ def run(ctx, spec):
 
 def replay(ctx, case):
     env.setup()
+    if case.get('versions') == 'system-dir':
+        return run_system_dirs(ctx, {})
     if 'versions' in case:
         run_versions(ctx, {})
         return
